@@ -42,11 +42,13 @@ class CSETagMapper(IdentityMapper):
         self.subexpr_histogram = walk_mapper.subexpr_histogram
 
     def map_call(self, expr):
+        # tag inside a repeated subexpression, too: what repeats within it
+        # (or between it and the rest) is otherwise computed more than once
+        result = getattr(IdentityMapper, expr.mapper_method)(self, expr)
         if self.subexpr_histogram.get(expr, 0) > 1:
-            return CommonSubexpression(expr)
+            return CommonSubexpression(result)
         else:
-            return getattr(IdentityMapper, expr.mapper_method)(
-                    self, expr)
+            return result
 
     map_sum = map_call
     map_product = map_call
